@@ -53,3 +53,15 @@ double fracrevbits(uint32_t i) {
 uint64_t ceilto64b(uint64_t size) { return (size + UINT64_C(63)) & (UINT64_C(-64)); }
 
 uint64_t ceilto32b(uint64_t size) { return (size + UINT64_C(31)) & (UINT64_C(-32)); }
+
+#ifdef SPQLIOS_VERIF
+#include <string.h>
+/* bit 0: hide "avx2", bit 1: hide "fma", bit 2: hide everything else */
+static unsigned spqlios_verif_hidden_features = 0;
+EXPORT void spqlios_verif_set_cpu_mask(unsigned hidden_features) { spqlios_verif_hidden_features = hidden_features; }
+EXPORT int spqlios_verif_cpu_allows(const char* feature) {
+  if (!strcmp(feature, "avx2")) return !(spqlios_verif_hidden_features & 1u);
+  if (!strcmp(feature, "fma")) return !(spqlios_verif_hidden_features & 2u);
+  return !(spqlios_verif_hidden_features & 4u);
+}
+#endif
